@@ -109,6 +109,10 @@ def run(ck, F):
 
     # ---------------------------------------------------------------- general substitution, whatever holds the bindings
     latest_binding_rule(ck, F)
+    # a substitution handed out keeps its binding as long as the Lexicon lives: the stores of substitution nodes are reference-stable
+    # and only grow
+    import borrow as _borrow
+    _borrow.borrow(ck, F, 'C05', 'C16', {'STORE', 'grow-only'}, only=lambda inst: 'subst' in inst.lower())
 
     # ---------------------------------------------------------------- general substitution
     if len([fl for fl in F.need_rec('ipr::impl::General_substitution')['fields'] if 'std::map<' in fl['t']]) != 1:
